@@ -1,4 +1,8 @@
-"""C19 — time arithmetic exact or None, never panics; monotonic clock and sleep observed."""
+"""C19 — time arithmetic exact or None, never panics; monotonic clock and sleep observed.
+
+Tie T: on every run checks/time_extract.py regenerates lean/TinyVerif/Gen/TimePure.lean from the Rust text of
+tiny-std/src/time.rs + rusl/src/platform/compat/time.rs; Props/C19.lean proves the generated public entry points equal
+to the model (gen_agrees_*), the driver evaluates model AND generated definitions against the real code."""
 import os
 
 from . import common as C
@@ -295,7 +299,7 @@ def prepare(ctx):
     if old != text:
         with open(path, "w") as f:
             f.write(text)
-    ctx.extra["time_extract"] = {"translated_functions": text.count("\ndef ") - 8, "regenerated": old != text}
+    ctx.extra["time_extract"] = {"translated_functions": sum(1 for l in text.splitlines() if l.startswith("def ") and "(rel : Bool)" in l and not l.startswith("def plain")), "regenerated": old != text}
     return []
 
 
